@@ -85,6 +85,7 @@ def h_reset(ctx, cfg):
         if m._init_cond.harvest_flag and m._clock_struct.season_counter == 0:
             break
     ctx.reach("second-season-started") if m._clock_struct.season_counter == 1 else None
+    ctx.count_steps(int(m._clock_struct.time_step_counter) + 2)      # real day-steps: first season, its reference day and the havocked first day of season 2
     ic = m._init_cond
     ctx.prove("C08,C01:the configured initial water content survives the first season unchanged",
               bool(np.array_equal(np.array(ic.thini, dtype=float), th_cfg)))
